@@ -190,11 +190,15 @@ Section Sem.
   (** absent(sel) has a value at t iff no series matches *)
   Definition absent_presence (d : db) (ms : list matcher) : presence := fun t => negb (sel_presence d ms t).
 
-  (** the uptime baseline: count(<uptime metric>) over the window; no result => one dummy range [Start(), End()] *)
+  (** the uptime baseline: count(<uptime metric>) over the window; no result => one dummy range [Start(), End()].
+      The dummy is built from clock readings taken BEFORE those of the later probes and time.Now() is strictly
+      increasing, so its end lies strictly before the [Until] of every later probe (whose last FindGaps point,
+      From + lookback, it therefore never covers) and its start strictly before their [From]: one nanosecond
+      stands for that strict order in this one-clock model. *)
   Definition uptime_ranges (d : db) (now : Z) (st : settings) : option (list range) :=
     match range_probe d now st [mkM MEq metric_name_label (set_uptime st)] with
     | None => None
-    | Some [] => Some [mkR count_fp (now - set_lookback st) now]
+    | Some [] => Some [mkR count_fp (now - set_lookback st - 1) (now - 1)]
     | Some l => Some l
     end.
 
